@@ -328,7 +328,7 @@ class Check:
             source_translation=dict(file="coq/Gen/Source.v", translator="harness/translate/pysrc.py",
                                     functions=[sp["name"] for sp in SRC_SPECS],
                                     untranslatable=src_errors,
-                                    equivalence_proofs="coq/Proofs/GenEq.v, GenEq2.v (recurrence), GenEq3.v (cache), GenEq4.v (memory), GenEq5.v (Difference._sweep), GenEq6.v (Intersection._sweep + _SourceState), GenEq7.v (__getitem__, _coerce_bound), GenEq8.v (CachedTimeline.fetch, _fill_gap, _stitch_at), GenEq9.v (Union/Difference fetch, overlapping), GenEq10.v (_occurrence_to_interval, metrics period windows): generated definition = model, for all inputs"),
+                                    equivalence_proofs="coq/Proofs/GenEq.v, GenEq2.v (recurrence), GenEq3.v (cache), GenEq4.v (memory), GenEq5.v (Difference._sweep), GenEq6.v (Intersection._sweep + _SourceState), GenEq7.v (__getitem__, _coerce_bound), GenEq8.v (CachedTimeline.fetch, _fill_gap, _stitch_at), GenEq9.v (Union/Difference fetch, overlapping), GenEq10.v (_occurrence_to_interval, metrics period windows), GenEq_small_*.v (constructors, operator dispatch, _is_mask, buffer / merge_within, Interval, CachedTimeline.__init__ / _get_key), GenEq_mem.v (MemoryTimeline write paths and fetch, MutableTimeline dispatch), GenEq_met.v (metrics.py), GenEq_gcsa*.v (gcsa.py), GenEq_filt*.v (properties.py, Filter classes), GenEq_rec*.v (RecurringPattern.__init__, RRULE text, fetch dispatcher): generated definition = model, for all inputs"),
             explanation=f"theorems of Props/{self.prop}.v re-checked by coqc on this run; the Gallina model is tied to "
                         f"/repo by evaluating it (vm_compute) on the same cases the implementation ran; the oracle is the "
                         f"executable spec applied to the implementation's output")
